@@ -2,7 +2,7 @@
    The heap model faults (returns None) on any access to an unallocated or freed node and on reading a
    payload that was moved out; every theorem below therefore includes "does not fault". The aliasing
    model of Rust is outside the model (DESIGN.md 6). *)
-Require Import LruV.B.TakingB LruV.B.RiCheckSound LruV.B.RiCheck LruV.B.OpsProps LruV.B.StepB LruV.B.RefineLemmas LruV.B.RefineB LruV.B.ReachB LruV.A.InvA.
+Require Import LruV.B.TakingB LruV.B.RiCheckSound LruV.B.RiCheck LruV.B.OpsProps LruV.B.StepB LruV.B.RefineLemmas LruV.B.RefineB LruV.B.ReachB LruV.B.TotalB LruV.A.InvA.
 
 (* RI h seal l (B/RepB.v): seal :: l are distinct allocated nodes, following next from the seal visits l and
    returns to the seal, prev mirrors next, every listed bucket owns a live key/value, the seal owns none. *)
@@ -70,6 +70,14 @@ Proof. exact b_moves_chain. Qed.
 Theorem C07_public_ops_refine : forall E VS b p oB b' o evs, RIb b -> KU b -> stepB E VS b p oB = Some (b', o, evs) ->
   stepA E VS fixed (absB b) p (ob oB) = Some (absB b', o, evs) /\ RIb b' /\ gseal (bg b') = gseal (bg b).
 Proof. exact stepB_refines. Qed.
+(* memory safety of the list surgery, positively: on a coherent structure with unique keys every operation whose pointer
+   work does not depend on hashbrown's bucket choices (all but insert / try_insert / reserve / try_reserve / shrink_to*,
+   whose new-bucket and move addresses come from the oracle and are checked) returns a result whenever the abstract
+   operation does: no access to a freed or unallocated node, no read of a moved-out payload, no eviction loop running off an
+   empty list. With C07_public_ops_refine that result is Layer A's. *)
+Theorem C07_no_pointer_fault : forall E VS b p oB r, RIb b -> KU b -> oracle_free p = true ->
+  stepA E VS fixed (absB b) p (ob oB) = Some r -> exists r', stepB E VS b p oB = Some r'.
+Proof. exact stepB_total. Qed.
 (* ... and therefore every state reachable from new / with_capacity by any sequence of operations under any oracle
    is coherent, and its abstraction is a reachable state of Layer A: all of Layer A's theorems speak about it *)
 Theorem C07_reachable_coherent : forall E VS, 0 < E -> VS <= E -> forall b, ReachB E VS b -> RIb b /\ Reach E VS (absB b).
@@ -136,4 +144,5 @@ Print Assumptions C07_b_insert_new.
 Print Assumptions C07_b_moves.
 Print Assumptions C07_public_ops_refine.
 Print Assumptions C07_reachable_coherent.
+Print Assumptions C07_no_pointer_fault.
 Print Assumptions C07_monitor_sound.
